@@ -27,14 +27,12 @@ fn one_case(rep: &Report, rng: &mut Rng, cfg: &GenCfg, systematic: bool) {
         }
         r => r,
     };
-    let nparts = 1 + rng.usize(3);
-    let mut r2 = rng.split();
     let sql = case.sql.clone();
     let res = vcommon::par::guard(|| {
         let rt = current_thread_rt();
         rt.block_on(async {
             let ctx = default_ctx(3, 3);
-            register_db(&ctx, &case.db, nparts, 3, &mut r2)?;
+            register_db_layout(&ctx, &case.db, &case.layout)?;
             match tokio::time::timeout(std::time::Duration::from_secs(120), run_sql(&ctx, &sql)).await {
                 Ok(r) => r.map(Some),
                 Err(_) => Ok(None),
@@ -131,6 +129,9 @@ fn run(args: &Args) -> i32 {
     rep.set_rule("case = (generated tables, generated SELECT of the fragment) executed by the engine (3 target partitions, batch size 3, 1-3 input partitions) and by the independent reference interpreter; distinct = hash(SQL text + table contents); non-trivial = both sides succeeded and the reference result is non-empty");
     rep.assume("the ~1.3 kLoC reference interpreter encodes SQL 3VL semantics + the engine conventions pinned in DESIGN appendix A");
     rep.assume("generated programs are deterministic by construction (total ORDER BY before LIMIT, total window orders, dyadic floats, no overflow)");
+    if let Some(p) = &args.replay {
+        return replay(p, &rep);
+    }
     let cfg = GenCfg::default();
     let n_sys = args.bound("systematic", 2500, 6000);
     let n_rand = args.bound("random", 4000, 300_000);
@@ -159,6 +160,36 @@ fn run(args: &Args) -> i32 {
     let evals = rep.get_count("systematic_compared") + rep.get_count("random_compared");
     rep.obligation("compared-share", evals * 100 >= (n_sys + n_rand) * 60, "at least 60% of generated cases must be compared (not skipped)");
     rep.finish()
+}
+
+/// Re-run a recorded witness: exit 1 if the engine still disagrees with the recorded reference rows.
+fn replay(p: &std::path::Path, rep: &Report) -> i32 {
+    let Some(w) = dfv::replay::load(p) else {
+        println!("cannot load witness {}", p.display());
+        return 2;
+    };
+    println!("{}", w.sql);
+    let cfg = datafusion::prelude::SessionConfig::new().with_target_partitions(3).with_batch_size(3).with_information_schema(false);
+    let res = dfv::replay::run(&w, cfg);
+    let Some(reference) = &w.reference_rows else { return 2 };
+    println!("reference rows: {}", dfv::value::rows_to_json(reference));
+    let _ = rep;
+    match res {
+        Ok(rows) => {
+            if dfv::canon::multiset_eq(&rows, reference) {
+                println!("REPLAY: engine now agrees with the recorded reference answer");
+                0
+            } else {
+                println!("VIOLATION property=C01 replay={} (replayed: still differs)", p.display());
+                1
+            }
+        }
+        Err(e) => {
+            println!("engine error: {e}");
+            println!("VIOLATION property=C01 replay={} (replayed: engine fails)", p.display());
+            1
+        }
+    }
 }
 
 fn main() {
